@@ -249,6 +249,12 @@ def run_histories(ctx, model, py_pickle_key=None):
         elif f["kind"] == "differs":
             rel = f["files"][0]
             where, d = where_of_diff(f["lang"], pathlib.Path(f["fresh_out"]) / rel, pathlib.Path(f["final_out"]) / rel)
+            if where == "pickled-model-literal":
+                for r2 in f["files"][1:]:
+                    w2, d2 = where_of_diff(f["lang"], pathlib.Path(f["fresh_out"]) / r2, pathlib.Path(f["final_out"]) / r2)
+                    if w2 != "pickled-model-literal":
+                        rel, where, d = r2, w2, d2
+                        break
             rp = {"scenario": f["scenario"], "lang": f["lang"], "runs_in_one_interpreter": f["runs"], "file": rel, "n_differing_files": f["n"],
                   "first_differing_line_fresh_vs_history": d, "sha256": f["sha256"], "input": "corpus:vnet"}
             if f["lang"] == "py" and where == "pickled-model-literal" and py_pickle_key is not None:
@@ -297,6 +303,83 @@ def run_cross_process(ctx, model, langs):
     return findings
 
 
+def pickled_models(path):
+    """The PyDSDL objects behind the `_MODEL_` literals of a generated Python module (base85 + gzip + pickle), in file order."""
+    import base64, gzip, pickle
+    groups, cur = [], []
+    for line in pathlib.Path(path).read_text(encoding="utf-8", errors="replace").splitlines():
+        if B85_LINE.match(line):
+            cur.append(line.strip().rstrip(")").strip().strip("'"))
+        elif cur:
+            groups.append(cur); cur = []
+    if cur:
+        groups.append(cur)
+    return [pickle.loads(gzip.decompress(base64.b85decode("".join(g)))) for g in groups]
+
+
+def model_projection(obj):
+    """(structure, {composite full name+version: source path}) of a pickled model: everything it says apart from the fill state of
+    PyDSDL's internal caches.  structure = the textual form of every reachable composite with its attributes."""
+    import pydsdl
+    struct, paths, seen, todo = [], {}, set(), [obj]
+    while todo:
+        t = todo.pop()
+        if id(t) in seen:
+            continue
+        seen.add(id(t))
+        if isinstance(t, pydsdl.ServiceType):
+            todo += [t.request_type, t.response_type]
+        if isinstance(t, pydsdl.CompositeType):
+            key = f"{t.full_name}.{t.version.major}.{t.version.minor}"
+            paths.setdefault(key, []).append(str(t.source_file_path))
+            if isinstance(t, pydsdl.ServiceType):
+                struct.append((key, type(t).__name__, t.deprecated, t.fixed_port_id))      # its two halves follow as composites of their own
+            else:
+                struct.append((key, type(t).__name__, t.deprecated, t.fixed_port_id, str(t.extent),
+                               tuple((type(a).__name__, a.name, str(a.data_type), str(getattr(a, "value", ""))) for a in t.attributes)))
+                for a in t.attributes:
+                    todo.append(a.data_type)
+        elif isinstance(t, pydsdl.ArrayType):
+            todo.append(t.element_type)
+    return sorted(struct), {k: sorted(set(v)) for k, v in paths.items()}
+
+
+def pickled_difference(path_a, path_b):
+    """What two modules whose `_MODEL_` literals differ disagree about: 'cache-state' (the known class: same structure, same paths — only
+    the fill state of caches inside the shared model objects / pickle memo layout), 'relocated-source-paths' (the known class of C07: every
+    path differs by one common directory prefix), 'source-paths' (anything else about paths: present in one, absent or different in the
+    other) or 'structure'."""
+    try:
+        ma, mb = pickled_models(path_a), pickled_models(path_b)
+        if len(ma) != len(mb):
+            return "structure", {"n_models": [len(ma), len(mb)]}
+        for xa, xb in zip(ma, mb):
+            sa, pa = model_projection(xa)
+            sb, pb = model_projection(xb)
+            if sa != sb:
+                return "structure", {"first": [str(next((x for x in sa if x not in sb), None))[:300], str(next((x for x in sb if x not in sa), None))[:300]]}
+            if pa != pb:
+                pairs = set()
+                for k in set(pa) | set(pb):
+                    va, vb = pa.get(k, []), pb.get(k, [])
+                    if len(va) != 1 or len(vb) != 1:
+                        return "source-paths", {"type": k, "paths": [va, vb]}
+                    qa, qb = pathlib.PurePosixPath(va[0]).parts, pathlib.PurePosixPath(vb[0]).parts
+                    n = 0
+                    while n < min(len(qa), len(qb)) and qa[len(qa) - 1 - n] == qb[len(qb) - 1 - n]:
+                        n += 1
+                    pairs.add((qa[: len(qa) - n], qb[: len(qb) - n]))
+                    if n == 0 or not va[0].startswith("/") or not vb[0].startswith("/"):
+                        return "source-paths", {"type": k, "paths": [va, vb]}
+                # relocation: every path absolute on both sides, same file name / tail, another directory prefix for every type
+                if all(x != y for x, y in pairs):
+                    return "relocated-source-paths", {"prefixes": sorted(map(str, pairs))[:3]}
+                return "source-paths", {"pairs": sorted(map(str, pairs))[:4]}
+        return "cache-state", None
+    except Exception as e:  # noqa
+        return "undecodable", {"error": repr(e)[:300]}
+
+
 def where_of_diff(lang, path_a, path_b):
     """Implementation-side description of where two files differ (part of the key of a finding)."""
     d = pr.first_diff(path_a, path_b)
@@ -306,7 +389,11 @@ def where_of_diff(lang, path_a, path_b):
     if a is None or b is None:
         return "length", d
     if lang == "py" and B85_LINE.match(a) and B85_LINE.match(b):
-        return "pickled-model-literal", d
+        # only the two known classes keep the key of the known findings; anything else the literals disagree about gets its own key
+        what, detail = pickled_difference(path_a, path_b)
+        if what in ("cache-state", "relocated-source-paths"):
+            return "pickled-model-literal", d
+        return "pickled-model-" + what, (d[0], f"{what}: {json.dumps(detail, default=str)[:400]}", d[2][:80] if d[2] else d[2])
     if ".dsdl" in a and ".dsdl" in b:
         return "dsdl-source-path", d
     if "last modified" in a.lower() or "last modified" in b.lower():
@@ -554,6 +641,12 @@ def run(ctx: common.Ctx):
                 continue
             rel = rels[0]
             where, d = where_of_diff(m["lang"], pathlib.Path(bmeta["out"]) / rel, pathlib.Path(m["out"]) / rel)
+            if where == "pickled-model-literal":
+                for r2 in rels[1:]:
+                    w2, d2 = where_of_diff(m["lang"], pathlib.Path(bmeta["out"]) / r2, pathlib.Path(m["out"]) / r2)
+                    if w2 != "pickled-model-literal":
+                        rel, where, d = r2, w2, d2
+                        break
             replay = {"input": m["input"], "dsdl": snaps.get(m["input"]), "lang": m["lang"], "options": m["extra"], "factor_varied": m["variant"],
                       "base": {"hashseed": bmeta["hashseed"], "clock": bmeta["fake_time"], "cwd": bmeta["cwd"], "location": bmeta["loc"],
                                "cwd_rel": bmeta.get("cwd_rel"), "options": bmeta["extra"]},
